@@ -72,9 +72,18 @@ func emit(v any) {
 func expIDs(e Exp) [][2]uint64 {
 	out := make([][2]uint64, 0, len(e.IDs))
 	for _, x := range e.IDs {
-		out = append(out, [2]uint64{x.Mid, x.Rid})
+		out = append(out, [2]uint64{x.Mid, rid(x.Rid)})
 	}
 	return out
+}
+
+var wide = flag.Bool("wide", false, "random parts spread over the whole uint64 range (cases.Widen)")
+
+func rid(r uint64) uint64 {
+	if *wide {
+		return cases.Widen(r)
+	}
+	return r
 }
 
 func sameIDs(a, b [][2]uint64) bool {
@@ -97,6 +106,9 @@ func runGroup(group []*Case) {
 	}
 	defer e.Close()
 	edocs := cases.EnvDocs(docs)
+	for i := range edocs {
+		edocs[i].RID = rid(edocs[i].RID)
+	}
 	// arrival: the corpus order; bulking alternates by corpus length parity + first rid
 	oneBulk := len(edocs) > 0 && (edocs[0].RID+uint64(len(edocs)))%2 == 0
 	if oneBulk {
